@@ -214,7 +214,7 @@ def _make_plan(knobs, fault, record=False):
 def execute(db, argv, knobs, fault, directory, record=False, count_sys=False):
     """Run one command against `db`.  fault is None or a fault plan dict."""
     ex = Exec()
-    argv = _subst(argv, db)
+    argv = _subst(argv, os.path.relpath(db) if knobs.get("_relative_paths") else db)
     layer = fault["layer"] if fault else None
     needs_fork = bool(fault) and (
         (layer == "C" and fault["kind"].startswith("kill")) or (layer == "A" and fault.get("kind") == "kill"))
@@ -405,6 +405,14 @@ class Trial:
     def __init__(self, seed, directory, spec=None, knobs=None, fault_rate=None, layers=None):
         self.seed = seed
         self.rng = random.Random(seed)
+        # where the dataset lives: a plain absolute path, a directory and file name with spaces and
+        # non-ASCII characters, or a path relative to the working directory (decided by the seed, not
+        # part of the PRNG stream that draws everything else)
+        style = ("plain", "plain", "odd-names", "relative")[seed % 4]
+        if style == "odd-names":
+            directory = os.path.join(directory, "field data \u00e9t\u00e9 2013")
+            os.makedirs(directory, exist_ok=True)
+        self.path_style = style
         self.dir = directory
         self.db = os.path.join(directory, "subject.sqlite")
         self.twin = os.path.join(directory, "twin.sqlite")
@@ -515,6 +523,9 @@ class Trial:
                     k["reference_recession_mm"] = on_grid()
                 if mode == "both_same":
                     k["reference_rise_mm"] = k["reference_recession_mm"] = on_grid()
+        if self.path_style == "relative":
+            self.knobs["_relative_paths"] = True
+            os.chdir(self.dir)
         if self.fault_rate is None:
             self.fault_rate = rng.choice([0.0, 0.3, 0.5, 0.5, 0.7])
         if self.layers is None:
@@ -1044,10 +1055,13 @@ def run_trial(seed, directory, other_process_seed=None, **kw):
     """Returns (trial, violation or None)."""
     trial = Trial(seed, directory, **kw)
     trial.other_process_seed = other_process_seed
+    home = os.getcwd()
     try:
         trial.run_history()
     except Violation as v:
         return trial, v
+    finally:
+        os.chdir(home)
     return trial, None
 
 
@@ -1055,10 +1069,15 @@ def replay_ops(rep, directory):
     trial = Trial(rep.get("seed", 0), directory, spec=rep["dataset"], knobs=dict(rep["knobs"]),
                   fault_rate=rep.get("fault_rate", 0.0), layers=list(rep.get("layers", ["A"])))
     trial.other_process_seed = rep.get("other_process_seed")
+    home = os.getcwd()
     try:
+        if trial.knobs.get("_relative_paths"):
+            os.chdir(trial.dir)
         trial.run_ops(rep["ops"], liveness=bool(rep.get("liveness")))
     except Violation as v:
         return trial, v
+    finally:
+        os.chdir(home)
     return trial, None
 
 
@@ -1236,6 +1255,14 @@ def history_job(job):
 
 
 def sweep_job(job):
+    home = os.getcwd()
+    try:
+        return _sweep_job(job)
+    finally:
+        os.chdir(home)
+
+
+def _sweep_job(job):
     with runner.RunDir() as directory:
         stats, distinct, violations, sample = sweep(
             job["seed"], directory, job["step"], job["prefix"], layers=job.get("layers", ("A", "C", "B", "L")),
